@@ -4,24 +4,13 @@
 //!   h_fields <data-file> [--only ID] <mode:rounds[:first]>...
 //!
 //! modes: always | sometimes | never | dyn | cap<N> | caps<N>   (see support.rs `Mode`).
-//! Output: one JSON object per line (reference tables, phase headers, one record per template x round).
+//! Output: one JSON object per line (reference tables, the build's static max level, phase headers, one record per
+//! template x round).
 #[path = "../support.rs"]
 mod support;
 #[path = "../gen/mod.rs"]
 mod gen;
 
 fn main() {
-    let mut args: Vec<String> = std::env::args().skip(1).collect();
-    if args.is_empty() {
-        eprintln!("usage: h_fields <data-file> [--only ID] <mode:rounds[:first]>...");
-        std::process::exit(2);
-    }
-    let data = args.remove(0);
-    let mut only = None;
-    if args.first().map(|s| s == "--only").unwrap_or(false) {
-        args.remove(0);
-        only = Some(args.remove(0).parse().unwrap());
-    }
-    let invs = gen::all();
-    support::run_all(&invs, &data, &args, only);
+    support::cli_main(&gen::all());
 }
